@@ -2,7 +2,7 @@
 import z3
 
 from pyvc.symex import Contract, Loop, spec, View, Outcomes
-from pyvc.symval import (TArr, TBool, TFloat, TInt, TObj, TOpaque, TReal, TSeq, TStr, TConst, NR, TOptional, fresh, I, R,
+from pyvc.symval import (Bo, Unsupported, TArr, TBool, TFloat, TInt, TObj, TOpaque, TReal, TSeq, TStr, TConst, NR, TOptional, fresh, I, R,
                          MaybeNone, Func, Opaque, TNone)
 
 F = 'andes/routines/tds.py'
@@ -794,3 +794,133 @@ def replay_run(bname, model, meta):
     return {'confirmed': bool(r is True and ss.TDS.test_ok is False), 'returned': bool(r), 'test_ok': ss.TDS.test_ok,
             'exit_code': int(ss.exit_code),
             'native_cmd': 'kundur_full: PFlow.run(); TGOV1.alter(VMAX, idx0, 0.1); TDS.run(tf=0.1)'}
+
+
+# ================================================================================================ C05: test_init / init
+def test_init(pid):
+    """TDS.test_init: True iff every residual entry (after zeroing the no-check states) is a number with magnitude below tol;
+    a failed test raises the exit code."""
+    N, M, NC = fresh('N', I), fresh('M', I), fresh('NC', I)
+    from pyvc.symval import ArrC
+
+    def fg_prop(ex, st):
+        f, g = st.content(st.load('self.system.dae.f')), st.content(st.load('self.system.dae.g'))
+        k = fresh('k', I)
+        FG = fresh('fg', z3.ArraySort(I, R))
+        FGN = fresh('fg.nans', z3.ArraySort(I, z3.BoolSort()))
+        # concatenation, stated as two families of equations (instantiation-friendly)
+        st.assume(z3.ForAll([k], z3.Implies(z3.And(k >= 0, k < f.n), z3.And(FG[k] == f.vals[k], FGN[k] == f.nan_at(k)))))
+        st.assume(z3.ForAll([k], z3.Implies(z3.And(k >= 0, k < g.n), z3.And(FG[f.n + k] == g.vals[k], FGN[f.n + k] == g.nan_at(k)))))
+        st.assume(z3.ForAll([k], z3.Implies(z3.And(k >= f.n, k < f.n + g.n), z3.And(FG[k] == g.vals[k - f.n], FGN[k] == g.nan_at(k - f.n)))))
+        return st.new_ref(ArrC(FG, f.n + g.n, FGN), 'fg')
+
+    def ok_all(old, new):
+        f, g, nc = old.arr('self.system.dae.f'), old.arr('self.system.dae.g'), old.arr('self.system.no_check_init')
+        tol = old.z('self.config.tol')
+        k, j = fresh('k', I), fresh('j', I)
+        a = lambda t: z3.If(t >= 0, t, -t)  # noqa
+        HIT = new.st.ghost.get('last_scatter')      # "k is listed in no_check_init" (defined by the store contract)
+        skipped = (lambda kk: HIT(kk)) if HIT is not None else (lambda kk: z3.BoolVal(False))  # noqa
+        okf = z3.ForAll([k], z3.Implies(z3.And(k >= 0, k < N, z3.Not(skipped(k))), z3.And(z3.Not(f.nan_at(k)), a(f.vals[k]) < tol)))
+        okg = z3.ForAll([k], z3.Implies(z3.And(k >= 0, k < M), z3.And(z3.Not(g.nan_at(k)), a(g.vals[k]) < tol)))
+        return z3.And(okf, okg)
+
+    def post(old, new, res):
+        return z3.Implies(z3.And(N + M > 0, to_b(res)), ok_all(old, new))
+
+    def post_conv(old, new, res):
+        return z3.Implies(z3.And(N + M > 0, ok_all(old, new)), to_b(res))
+
+    def post_exit(old, new, res):
+        return z3.Implies(z3.Not(to_b(res)), new.z('self.system.exit_code') == old.z('self.system.exit_code') + 1)
+    c = Contract(F, 'TDS.test_init', pid=pid, params={'self': TObj()},
+                 schema={'self.system.dae.f': TArr(nan=True, n=N), 'self.system.dae.g': TArr(nan=True, n=M),
+                         'self.system.no_check_init': TArr(n=NC, kind='int'), 'self.config.tol': TReal(),
+                         'self.system.config.warn_limits': TConst(0), 'self.system.exit_code': TInt(),
+                         'self.system.exist.pflow_tds': Models, 'self.system.dae.xy_name': TSeq(elem=TStr.sort),
+                         'self.system.dae.xy': TArr()},
+                 requires=[('sizes', lambda v: z3.And(N >= 0, M >= 0, NC >= 0, v.z('self.config.tol') > 0)),
+                           ('no-check-addresses-in-range', lambda v: z3.ForAll([JQ], z3.Implies(z3.And(JQ >= 0, JQ < NC), z3.And(
+                               v.arr('self.system.no_check_init').vals[JQ] >= 0, z3.ToInt(v.arr('self.system.no_check_init').vals[JQ]) < N))))],
+                 calls={'self.system.j_update': spec(name='System.j_update'),
+                        'self.system.options.get': lambda ex, st, a, k, n: 0},
+                 ensures=[('True=>every-checked-residual-is-a-number-below-tol', post),
+                          ('every-checked-residual-fine=>True', post_conv), ('failure=>exit-code+1', post_exit)],
+                 modifies=['self.system.dae.f', 'self.system.exit_code'])
+    c.properties = {'self.system.dae.fg': fg_prop}
+    c.skip_calls = ('Tab', 'tab.draw', 'np.hstack', 'np.ravel', 'np.where', 'list', 'zip', 'breakpoint')
+    c.skip_locals = ('fail_idx', 'nan_idx', 'bad_idx', 'fail_names', 'nan_names', 'bad_names', 'title', 'err_data', 'tab')
+    c.check_bounds = False
+    return c
+
+
+JQ = z3.Int('jq')
+
+
+def tds_init(pid):
+    """TDS.init: the power-flow solution is copied into the leading slots of x and y before the dynamic models are addressed;
+    the time is reset; the init test result is recorded; an already initialised TDS is left alone."""
+    NX, NY, PX, PY = [fresh(n, I) for n in ('NX', 'NY', 'PX', 'PY')]
+
+    def set_address(ex, st, args, kw, node):
+        v = View(st, ex)
+        x, y = v.arr('self.system.dae.x'), v.arr('self.system.dae.y')
+        xs, ys = v.arr('self.system.PFlow.x_sol'), v.arr('self.system.PFlow.y_sol')
+        k = fresh('k', I)
+        ex.oblige(st, 'pre@call:System.set_address:x[:len(x_sol)]=x_sol,y[:len(y_sol)]=y_sol,t=0', z3.And(
+            z3.ForAll([k], z3.Implies(z3.And(k >= 0, k < PX), x.vals[k] == xs.vals[k])),
+            z3.ForAll([k], z3.Implies(z3.And(k >= 0, k < PY), y.vals[k] == ys.vals[k])), v.z('self.system.dae.t') == 0), {})
+        return None
+
+    def test_init_h(ex, st, args, kw, node):
+        r = fresh('test_init', Bo)
+        st.ghost['test'] = r
+        return r
+
+    def post(old, new, res):
+        was = old.z('self.initialized')
+        t = new.get('self.test_ok')
+        tv = t.value if isinstance(t, MaybeNone) else t
+        g = new.st.ghost.get('test')
+        rec = z3.BoolVal(True) if g is None else z3.Implies(old.z('self.config.test_init'), to_z3_b(tv) == g)
+        return z3.Implies(z3.Not(was), z3.And(new.z('self.initialized'), rec))
+
+    def to_z3_b(x):
+        return z3.BoolVal(x) if isinstance(x, bool) else x
+    c = Contract(F, 'TDS.init', pid=pid, params={'self': TObj()},
+                 schema={'self.initialized': TBool(), 'self.system.dae.x': TArr(nan=True, n=NX), 'self.system.dae.y': TArr(nan=True, n=NY),
+                         'self.system.PFlow.x_sol': TArr(nan=True, n=PX), 'self.system.PFlow.y_sol': TArr(nan=True, n=PY),
+                         'self.system.dae.t': TReal(), 'self.system.dae.xy': TArr(), 'self.system.exist.pflow_tds': Models,
+                         'self.system.exist.tds': Models, 'self.data_csv': TOptional(TOpaque('CSV')), 'self.config.test_init': TBool(),
+                         'self.test_ok': TOptional(TBool()), 'self.system.dae.Tf': TArr(), 'self.system.dae.n': TInt(),
+                         'self.system.dae.m': TInt(), 'self.system.dae.f': TArr(nan=True), 'self.system.antiwindups': TOpaque('AW'),
+                         'self.system.streaming.dimec': TOptional(TOpaque('Dimec')), 'self.system.config.dime_enabled': TBool(),
+                         'self.Teye': TOpaque('Mat'), 'self.qg': TArr(), 'self.x0': TArr(), 'self.y0': TArr(), 'self.f0': TArr(),
+                         'self.system.files.case': TStr()},
+                 requires=[('solution-fits', lambda v: z3.And(PX >= 0, PY >= 0, PX <= NX, PY <= NY)),
+                           ('no-csv', lambda v: v.isnone('self.data_csv'))],
+                 ghost_init={'test': None},
+                 calls={'elapsed': spec(returns=(NR(z3.Real('t_el')), 's'), name='elapsed'), 'self.reset': spec(name='TDS.reset'),
+                        'self._load_pert': spec(name='_load_pert'), 'self.system.set_address': set_address,
+                        'self.system.set_dae_names': spec(name='set_dae_names'), 'self.system.set_output_subidx': spec(name='set_output_subidx'),
+                        'self.system.dae.clear_ts': spec(name='clear_ts'), 'self.system.store_sparse_pattern': spec(name='store_sparse_pattern'),
+                        'self.system.store_adder_setter': spec(name='store_adder_setter'),
+                        'self.system.store_no_check_init': spec(name='store_no_check_init'),
+                        'self.system.vars_to_models': spec(name='vars_to_models'),
+                        'self.system.init': spec(modifies=['loc:self.system.dae.*'], name='System.init'),
+                        'self.fg_update': spec(modifies=['loc:self.system.dae.*'], name='TDS.fg_update'),
+                        'self.system.store_switch_times': spec(name='store_switch_times'),
+                        'spdiag': lambda ex, st, a, k, n: Opaque(fresh('Teye', z3.DeclareSort('Mat'))),
+                        'self.test_init': test_init_h, 'self.system.streaming.connect': spec(name='connect'),
+                        'self.streaming_init': spec(name='streaming_init'), 'self.streaming_step': spec(name='streaming_step'),
+                        'self.calc_h': spec(returns=TReal(), modifies=CALC_H_MOD, name='TDS.calc_h'),
+                        'tqdm.write': spec(name='tqdm.write')},
+                 globals_={'elapsed': Func('elapsed'), 'spdiag': Func('spdiag'),
+                           'tqdm': __import__('pyvc.symval', fromlist=['Module']).Module('tqdm')},
+                 loops={0: Loop(summary=lambda ex, st, node: [(st, None, None)])},
+                 ensures=[('fresh-init=>initialized-set-and-test-result-recorded', post),
+                          ('already-initialised=>nothing-redone', lambda old, new, res: z3.Implies(
+                              old.z('self.initialized'), new.z('self.system.dae.t') == old.z('self.system.dae.t')))],
+                 modifies=['self.*', 'self.system.dae.*'])
+    c.check_bounds = False
+    return c
